@@ -2,6 +2,7 @@ SPECIFICATION Spec
 CONSTANTS
   N = 5
   MaxItems = 2
+  DropStraddler = FALSE
   Mech = "addto"
 INVARIANT SweepOK
 INVARIANT TokDisjoint
